@@ -1,14 +1,16 @@
 #!/bin/bash
-# usage: c12.sh <replay.json> <repo>   exit 0 iff a storage-fault run on the real code violates atomicity
+# usage: c11.sh <replay.json> <repo>   exit 0 iff a start-up / removal scenario on the real code violates C11
+# (legacy-name upgrade over an existing plot; a renamed plot file whose header does not match its name is indexed)
 set -u
 REPO=${2:-/repo}
 export GOFLAGS=-mod=mod GOPROXY=off GOSUMDB=off GOTOOLCHAIN=local
 D=$(mktemp -d)
 trap 'rm -rf "$D"' EXIT
 cp "$(dirname "$0")/c11_replay_test.go.txt" "$D/zz_govc_replay_test.go"
+cp "$(dirname "$0")/c11rn_replay_test.go.txt" "$D/zz_govc_replay2_test.go"
 P=poc/engine/spacekeeper/capacity
 cat > "$D/ov.json" <<JSON
-{"Replace": {"$REPO/$P/zz_govc_replay_test.go": "$D/zz_govc_replay_test.go"}}
+{"Replace": {"$REPO/$P/zz_govc_replay_test.go": "$D/zz_govc_replay_test.go", "$REPO/$P/zz_govc_replay2_test.go": "$D/zz_govc_replay2_test.go"}}
 JSON
 OP=""
 if [ -f "$1" ]; then
